@@ -87,6 +87,9 @@ def run_shard(spec):
         w = spec["replay"]
         L = [bytes.fromhex(x) for x in w["list"]]
         st = State(mt)
+        if w.get("lane") == "checkpoint-header":
+            checkpoint_header_lane(st, random.Random(1), 20)
+            return st.result()
         if w.get("lane") == "node":         # the route through the store is re-run (the witness lists are for the reader)
             node_lane(st, random.Random(1), 25)
             return st.result()
@@ -134,6 +137,7 @@ def run_shard(spec):
             st.check_pair(L, M, name + "@long")
     consensus_lane(st, rng, 150 if tier == "quick" else 4000)
     node_lane(st, rng, 25 if tier == "quick" else 400)
+    checkpoint_header_lane(st, rng, 20 if tier == "quick" else 300)
     return st.result()
 
 
@@ -186,6 +190,63 @@ def consensus_lane(st, rng, n):
         blk = dt.Block(dt.BlockHeader(summary, dt.PowEvidence(b"\x00" * 32, b"\x00" * 32, b"\x00" * 32)), ed)
         if blk.header.summary.merkle_root_hash == cons.calc_merkle_root_hash(blk.transactions):
             st.v("stale-commitment-accepted-for-edited-list", "merkle check passes for a block whose transactions were edited", w)
+
+
+def checkpoint_header_lane(st, rng, n):
+    """the commitment check is not waived for blocks whose HEADER is a trusted one: the real genesis header (a built-in
+    checkpoint) and headers entered into the checkpoint table, each over an edited transaction list, must be refused by
+    the block-by-itself validation and by the full entry point"""
+    import skepticoin.consensus as cons
+    import skepticoin.datatypes as dt
+    import skepticoin.signing as sg
+    from skepticoin.coinstate import CoinState
+    from skv import objgen
+    g = objgen.Gen()
+    gb = dt.Block.deserialize(env.genesis_bytes())
+    saved = (cons.KNOWN_HASHES, cons.MAX_KNOWN_HASH_HEIGHT)
+
+    def edits(txs):
+        extra = g.transaction(rng)
+        out = [("append", txs + [extra]), ("duplicate-last", txs + [txs[-1]]), ("substitute-last", txs[:-1] + [extra])]
+        if len(txs) > 1:
+            out += [("remove-last", txs[:-1]), ("substitute-middle", txs[:1] + [extra] + txs[2:])]
+        if len(txs) > 2:
+            out.append(("swap", txs[:1] + [txs[2], txs[1]] + txs[3:]))
+        return out
+
+    def judge(kind, header, txs, now, table_note):
+        for name, ed in edits(txs):
+            if [t.hash() for t in ed] == [t.hash() for t in txs]:
+                continue
+            blk = dt.Block(header, ed)
+            st.c_extra["checkpoint_header_edits"] = st.c_extra.get("checkpoint_header_edits", 0) + 1
+            w = {"list": [t.hash().hex() for t in txs], "edited": [t.hash().hex() for t in ed], "edit": kind + "-" + name,
+                 "lane": "checkpoint-header"}
+            try:
+                cons.validate_block_by_itself(blk, now)
+                st.v("stale-commitment-accepted-for-edited-list:" + kind, "a block with %s and an edited transaction list (%s) "
+                     "passes the block-by-itself validation although the list does not reproduce the header commitment" % (
+                         table_note, name), w)
+            except Exception:
+                pass
+    try:
+        judge("genesis-header", gb.header, list(gb.transactions), gb.timestamp + 100, "the real genesis header")
+        for k in range(n):
+            h = rng.choice([1, 5, 500, 1000, 163000])
+            cb = dt.Transaction([dt.Input(dt.OutputReference(b"\x00" * 32, 0), sg.CoinbaseData(h, b"x"))],
+                                [dt.Output(10, g.public_key(rng))])
+            txs = [cb] + [g.transaction(rng) for _ in range(rng.choice([0, 1, 2, 3]))]
+            if len({t.hash() for t in txs}) != len(txs):
+                continue
+            summary = dt.BlockSummary(h, objgen.h32(rng), cons.calc_merkle_root_hash(txs), 1615757105 + k, b"\xff" * 32, k)
+            header = dt.BlockHeader(summary, dt.PowEvidence(b"\x00" * 32, b"\x00" * 32, b"\x00" * 32))
+            blk = dt.Block(header, txs)
+            sample = next(iter(saved[0].values())) if saved[0] else ""
+            cons.KNOWN_HASHES = {h: blk.hash().hex() if isinstance(sample, str) else blk.hash()}
+            cons.MAX_KNOWN_HASH_HEIGHT = max(h, 163000)
+            judge("table-header", header, txs, summary.timestamp + 100, "a header entered into the checkpoint table at height %d" % h)
+    finally:
+        cons.KNOWN_HASHES, cons.MAX_KNOWN_HASH_HEIGHT = saved
 
 
 def node_lane(st, rng, n):
@@ -352,6 +413,7 @@ def finalize(m, tier):
                    ("proofs_checked", c.get("proofs_checked", 0), 500),
                    ("duplicate-last pairs", c.get("pairs_by_edit", {}).get("duplicate-last", 0), 100),
                    ("consensus_commitments", c.get("consensus_commitments", 0), 500),
-                   ("held_blocks_checked", c.get("held_blocks_checked", 0), 500), ("held_block_proofs", c.get("held_block_proofs", 0), 2000)],
+                   ("held_blocks_checked", c.get("held_blocks_checked", 0), 500),
+                   ("checkpoint_header_edits", c.get("checkpoint_header_edits", 0), 500), ("held_block_proofs", c.get("held_block_proofs", 0), 2000)],
         "extra": {"exhaustive_bound": "all single edits of the listed kinds for every base list of length 1..10"},
     }
